@@ -99,6 +99,26 @@ def judge(run, nontrivial, level_note="", extra_cov=None, chunk_events=1500):
     for k, sc in enumerate(run.scenarios):
         sc["sid"] = f"{prop}-{k}-{sc.get('src', '')}"
     events = C.run_harness(run.scenarios, run.wdir)
+    # scenarios that ask for it are executed again in further OS processes (fresh hash keys);
+    # those events are appended to the same scenario, so the trace spec compares across processes
+    multi = [sc for sc in run.scenarios if sc.get("procs", 1) > 1]
+    if multi:
+        extra = {}
+        for pno in range(2, max(sc["procs"] for sc in multi) + 1):
+            batch = [sc for sc in multi if sc["procs"] >= pno]
+            for e in C.run_harness(batch, run.wdir, nproc=max(2, C.NPROC // 2)):
+                if e["ev"] != "Reset":
+                    e["proc"] = pno
+                    extra.setdefault(e["sid"], []).append(e)
+        merged, cur = [], None
+        for e in events:
+            if e["ev"] == "Reset" and cur is not None:
+                merged.extend(extra.get(cur, []))
+            if e["ev"] == "Reset":
+                cur = e["sid"]
+            merged.append(e)
+        merged.extend(extra.get(cur, []))
+        events = merged
     fails, tst = C.validate_trace(events, run.wdir, chunk_events=chunk_events)
     evs = by_sid(events)
     scs = {sc["sid"]: sc for sc in run.scenarios}
@@ -147,6 +167,7 @@ def judge(run, nontrivial, level_note="", extra_cov=None, chunk_events=1500):
         "model_states": run.model_states,
         "trace_states": tst["states"],
         "trace_chunks": tst["chunks"],
+        "trace_spec_counters": tst.get("spec", {}),
         "fail_lines_for_other_properties_in_these_scenarios": cross,
         "known_findings_hit": {k: v[1] for k, v in known_hits.items()},
     }
@@ -338,3 +359,128 @@ def c10(run):
 def selftest():
     print("selftest: not implemented yet")
     return 0
+
+
+# --------------------------------------------------------------------------------------
+# C12 / C13 / C11 / C01: the store level
+# --------------------------------------------------------------------------------------
+def hist_model(run, mode, depth, ops, frm, contents="plain"):
+    return run.add_model("MC_Hist", env={"MODE": mode, "DEPTH": str(depth), "OPS": ops, "FROM": frm,
+                                         "CONTENTS": contents, "TIER": run.tier})
+
+
+def nt_history(sc, evs):
+    # a history is non-trivial when some id was replaced or removed after having been added
+    seen, touched = set(), False
+    for op in sc["ops"]:
+        if op.get("i") != 1:
+            continue
+        k = op.get("id") or op.get("path")
+        if op["op"] in ("add", "addfile") and op.get("mode", "ok") == "ok":
+            touched = touched or k in seen
+            seen.add(k)
+        elif op["op"] == "remove" and k in seen:
+            touched = True
+    return touched
+
+
+@plan("C12")
+def c12(run):
+    q = run.tier == "quick"
+    scs = []
+    for s in hist_model(run, "hist", 3 if q else 4, "core", "empty"):
+        scs.append(F.hist_scenario(s, "mc-hist-empty-core"))
+    for s in hist_model(run, "hist", 2 if q else 3, "all", "empty"):
+        scs.append(F.hist_scenario(s, "mc-hist-empty-all"))
+    for s in hist_model(run, "hist", 1 if q else 2, "core", "all"):
+        scs.append(F.hist_scenario(s, "mc-hist-all-direct", "direct"))
+        scs.append(F.hist_scenario(s, "mc-hist-all-long", "long"))
+    run.add(scs)
+    run.add(F.random_histories(run.rng, 150 if q else 2500))
+    run.rule = ("TLC enumerates MC_Hist: every operation history of the stated length over 3 ids x 4 structured contents "
+                "(from the empty parser over the core and the full alphabet incl. the three add_file outcomes; from every one "
+                "of the 125 abstract states, each entered through a direct and a long history) and attaches the abstract "
+                "store after every step; the replay validates the live parser and a fresh parser loaded from that abstract "
+                "store after EVERY step and the trace spec demands equal results for equal (id, content) maps; plus seeded "
+                "random histories up to length 40 over generated projects. Non-trivial = distinct history in which some id "
+                "is replaced or removed after having been added.")
+    run.exhaustive = False
+    return judge(run, nt_history, chunk_events=4000)
+
+
+def nt_perturb(sc, evs):
+    return sum(1 for op in sc["ops"] if op["op"] == "validate") >= 2 and any(
+        n["c"] == "imp" for n in nodes_of(evs))
+
+
+@plan("C13")
+def c13(run):
+    q = run.tier == "quick"
+    scs = [F.trans_scenario(s, "mc-trans") for s in hist_model(run, "trans", 1, "core", "all", "rich")]
+    run.add(scs)
+    run.add(F.random_perturbations(run.rng, 200 if q else 3000))
+    run.rule = ("TLC enumerates every transition (from, op, to) of MC_Hist in 'trans' mode over 2 (quick) / 3 (thorough) ids x 8 "
+                "contents (two importers of p.B and q.C, two bodies of parcelable p.B, enum p.B, interface q.C, an unrelated "
+                "file, a malformed text) and checks Locality on the model; each transition is replayed with a full "
+                "observation before and after, and the trace spec requires an equal result whenever a file's content and "
+                "the facts about its imports are equal (kind changes / removals are the control where the facts differ and "
+                "C05-C10 judge the changed result); plus random projects with random perturbations. Non-trivial = distinct "
+                "scenario with an importing file observed at least twice.")
+    return judge(run, nt_perturb, extra_cov=None)
+
+
+def nt_multi_diag_line(sc, evs):
+    for o in validated_obs(evs):
+        lines = [d["r"][2] for d in o["diags"]]
+        if len(lines) != len(set(lines)):
+            return True
+    return False
+
+
+@plan("C11")
+def c11(run):
+    q = run.tier == "quick"
+    scs = []
+    for s in run.add_model("MC_Validate", env={"FAMILY": "order", "TIER": run.tier}):
+        for rep in range(2 if q else 6):
+            scs.append(F.determinism_scenario(s["files"], "mc-order", run.rng, layout="oneline", procs=2 if q else 3))
+    g = F.ProjGen(run.rng, "C11")
+    for k in range(120 if q else 1500):
+        pr = g.project()
+        scs.append(F.determinism_scenario(pr["files"], "rnd-project", run.rng,
+                                          layout="oneline" if k % 2 else "default", procs=2 if k % 3 == 0 else 1))
+    run.add(scs)
+    run.rule = ("TLC enumerates family 'order' (2-4 diagnostics forced onto one line: unused imports, forward declarations, "
+                "argument errors; ambiguous imports of one simple name from several packages; several files registering one "
+                "key with different kinds), each replayed repeatedly; every scenario validates the same (id, content) pairs 7 "
+                "times in place, in a new instance with reversed and shuffled insertion orders, in fresh threads and in 2-3 "
+                "separate OS processes; the trace spec demands equal digests (trees + diagnostic lists in order) for equal "
+                "stores and ascending (line, column) order; plus random projects. Non-trivial = distinct scenario where some "
+                "file has two diagnostics on one line.")
+    return judge(run, nt_multi_diag_line)
+
+
+def nt_soup(sc, evs):
+    return any(e["ev"] == "validate" for e in evs) and any(len(op.get("text", "")) > 0 for op in sc["ops"])
+
+
+@plan("C01")
+def c01(run):
+    q = run.tier == "quick"
+    g = F.ProjGen(run.rng, "C01")
+    base = []
+    for _ in range(12 if q else 40):
+        pr = g.project()
+        base += [R.text_of(R.default_layout(f["toks"])) for f in pr["files"]]
+    base += [F.DOC_FRAME_1, F.DOC_FRAME_2]
+    run.add(F.soup_scenarios(run.rng, 2500 if q else 60000, base))
+    run.add(F.injection_scenarios([F.DOC_FRAME_1, F.DOC_FRAME_2] if q else [F.DOC_FRAME_1, F.DOC_FRAME_2] + base[:6],
+                                  F.HAZARD if not q else F.HAZARD[:12]))
+    run.rule = ("Seeded generators of arbitrary UTF-8 texts: character soups over a hazard alphabet (2-, 3-, 4-byte letters, "
+                "combining mark, NBSP, U+3000, U+2028, NEL, CR, CRLF, TAB, quote, slash, star, NUL, BOM), token soups, mutated "
+                "well-formed documents, generic nesting to depth 64, documents up to 64 KiB, 1-6 files per parser; and every "
+                "hazard atom injected at every token / comment / string boundary of two frame documents that contain every "
+                "construct. Every call is an event; the trace spec (AidlStore.AddContent is enabled for EVERY content) "
+                "rejects any call that panics, aborts or hangs, and demands exactly one result per id held, tagged with its "
+                "own id. Non-trivial = distinct scenario with a non-empty text.")
+    return judge(run, nt_soup, chunk_events=6000)
